@@ -108,6 +108,7 @@ pub fn gen_script(rng: &mut Rng, level: usize) -> Vec<HAction> {
             writes: if rng.chance(75) { gen_calls(rng) } else { vec![] },
             set_prompt: if level >= 2 && rng.chance(30) { Some(rng.below(PROMPTS.len())) } else { None },
             fail: false,
+            reject: rng.chance(12),
         })
         .collect()
 }
